@@ -1,6 +1,7 @@
 from props import job
 
 PROP = dict(
+    technique='model-based rapid state machine over the real bolt arbitrator log (level A) + crash enumeration: every effect of an uninterrupted close run is a stop point, restart on the same bolt file, outcome equality as sets (level B)',
     level="fault_enumeration",
     rule=("Level B (TestVerifC13Crash): a C12-generated close scenario (<=4 HTLCs "
           "on the three commitments; confirmed commitment in {ours, peer's "
